@@ -770,6 +770,15 @@ def case_bu_wide(rng):
         if rng.random() < 0.8: lines.append(f"task {M[i]} read {S} 0 req {L[i]} {oc()} ret + v 0 v 1")
         else: lines.append(f"task {M[i]} req {L[i]} {oc()} ret + v 0 k {i}")
     n = L[-1]
+    meta = {}
+    if rng.random() < 0.4:
+        # a role-changing pair in the same queue: P generates G only while S is even; R requires P and reads G while S is
+        # even, and reads G as a plain source otherwise.  Correct order (P before R) drops P's write edge before R reads.
+        R, P, G = n + 1, n + 2, rng.choice([20, 120])
+        lines.append(f"task {R} read {S} 0 if = % v 0 k 0 req {P} {rng.choice([0, 4])} read {G} 0 ret + v 1 k 1 read {G} 0 ret k 7")
+        lines.append(f"task {P} read {S} 0 if = % v 0 k 0 write {G} 0 some v 0 ret k 1 ret k 2")
+        n = P
+        meta = dict(role_change="producer stops writing")
     hist = [f"set {S} {rng.randint(0, 3)}"] + [f"set {w} 0" for w in W] + [f"set {10 + i} {rng.randint(0, 3)}" for i in range(k)]
     order = list(range(1, n + 1))
     if rng.random() < 0.5: rng.shuffle(order)         # creation order decides the ranks
@@ -784,8 +793,8 @@ def case_bu_wide(rng):
         rng.shuffle(changed)
         hist += ["session", "bu " + " ".join(map(str, changed))]
         for _ in range(rng.randint(0, 1)): hist.append(f"req {rng.randint(1, n)}")
-        hist += ["endsession", "session", "reqknown", "endsession", "cleanknown"]
-    return sorted(lines, key=lambda l: int(l.split()[1])) + hist
+        hist += ["endsession", "cleannodes", "session", "reqknown", "endsession", "cleanknown"]
+    return sorted(lines, key=lambda l: int(l.split()[1])) + hist, meta
 
 
 def case_erosion(rng):
